@@ -145,33 +145,43 @@ def run(ctx):
     else:
         ctx.saw_fn(ra)
         body = ra.hir["body"]
-        lets = {l["pat"]["name"]: l.get("init") for l in hirq.find(body, "let") if l["pat"].get("k") == "bind"}
+        # which call extracts, and what is bound to its result
+        def leaves(e):
+            return [("?" if v is None else hirq.render(v)) for v in hirq.value_leaves(body, e)]
+
+        def from_extraction(txt):
+            return "extract_files_with_metadata(" in txt
         for i, lit in enumerate(x for x in hirq.find(body, "struct") if x["res"].get("def", "").endswith("RebuildSummary")):
             flds = {k: v for k, v in lit["fields"]}
             probs = []
-            src = hirq.render(flds.get("source_files"))
-            ext = hirq.strip(flds.get("extracted_files"))
-            skp = hirq.strip(flds.get("skipped_files"))
-            if skp.get("k") == "path" and skp["res"].get("local") in lets and lets[skp["res"]["local"]] is not None:
-                skp = hirq.strip(lets[skp["res"]["local"]])
-            src_n = hirq.strip(flds.get("source_files"))
-            if src_n.get("k") == "path" and src_n["res"].get("local") in lets and lets[src_n["res"]["local"]] is not None:
-                src = hirq.render(lets[src_n["res"]["local"]])
-            if "file_count" not in src:
-                probs.append("source_files = `%s`" % src)
-            extr = hirq.render(ext)
-            if ext.get("k") == "path" and "local" in ext["res"]:
-                extr = hirq.render(lets.get(ext["res"]["local"])) if lets.get(ext["res"]["local"]) is not None else extr
-            if not re.search(r"extracted_files\.len\(\)", extr):
-                probs.append("extracted_files = `%s`" % extr)
-            sr = hirq.render(skp)
-            if not (skp.get("k") == "bin" and skp["op"] == "-" and "file_count" in hirq.render(skp["l"]) and "extracted" in hirq.render(skp["r"])) \
-                    and not (skp.get("k") == "mcall" and skp["m"] in ("saturating_sub", "checked_sub", "wrapping_sub") and "file_count" in hirq.render(skp["recv"]) and "extracted" in hirq.render(skp["args"][0])):
-                probs.append("skipped_files = `%s`" % sr)
-            if probs:
-                ctx.bad(R_counts, "rebuild_archive|summary#%d" % i, "%s:%d" % (ra.file, lit["ln"]), "; ".join(probs), "the reported counts are not the measured ones")
+            src_l, ext_l = leaves(flds.get("source_files")), leaves(flds.get("extracted_files"))
+            # extracted = length of the list the extraction returned
+            if not (len(ext_l) == 1 and re.search(r"\.len\(\)$", ext_l[0]) and from_extraction(" ".join(leaves(hirq.strip(hirq.value_leaves(body, flds.get("extracted_files"))[0])["recv"])))):
+                probs.append("extracted_files = `%s` is not the length of the extracted list" % ", ".join(ext_l))
+            # source = a count of the source archive's files: the table count, or what the extraction reports as listed
+            if not (len(src_l) == 1 and (re.search(r"\.file_count$", src_l[0]) or from_extraction(src_l[0]))):
+                probs.append("source_files = `%s` is neither the archive's file count nor the listing's count" % ", ".join(src_l))
+            # skipped = source - extracted, on the very same two values; a plain `-` needs both to come from one enumeration
+            sk = [v for v in hirq.value_leaves(body, flds.get("skipped_files"))]
+            sk0 = hirq.strip(sk[0]) if len(sk) == 1 and sk[0] is not None else {}
+            if sk0.get("k") == "bin" and sk0["op"] == "-":
+                a_, b_, plain = sk0["l"], sk0["r"], True
+            elif sk0.get("k") == "mcall" and sk0["m"] in ("saturating_sub", "checked_sub") and sk0.get("args"):
+                a_, b_, plain = sk0["recv"], sk0["args"][0], False
             else:
-                ctx.ok(R_counts, {"summary_literal_line": lit["ln"], "skipped": sr})
+                a_ = b_ = None
+                plain = False
+                probs.append("skipped_files = `%s` is not a difference" % hirq.render(sk0)[:60])
+            if a_ is not None:
+                if leaves(a_) != src_l or leaves(b_) != ext_l:
+                    probs.append("skipped_files = `%s` is not source_files - extracted_files" % hirq.render(sk0)[:60])
+                elif plain and not from_extraction(" ".join(src_l)):
+                    probs.append("skipped_files subtracts the extracted count from `%s`, a count taken from a different enumeration than the list that was extracted, with a plain `-`" % src_l[0])
+            if probs:
+                ctx.bad(R_counts, "rebuild_archive|summary#%d" % i, "%s:%d" % (ra.file, lit["ln"]), "; ".join(probs),
+                        "the reported counts are not the measured ones; when the two enumerations disagree (a zero-length file is listed but not counted by the block-table scan) the subtraction underflows: panic, or usize::MAX skipped files in release builds")
+            else:
+                ctx.ok(R_counts, {"summary_literal_line": lit["ln"], "source": src_l[0][:60], "skipped": hirq.render(sk0)[:60]})
         # phases
         for callee in ("extract_files_with_metadata", "rebuild_with_files", "verify_rebuild"):
             hit = [(bb, t) for bb, t in mirg.iter_calls(ra) if (ncallee(t) or "").endswith("rebuild::" + callee)]
